@@ -52,6 +52,9 @@ prop('C17', ground=['astpass:c17_forwarding'], bounded=['robust'],
      explanation='reads-clauses on the default resolvers (a default is consulted only when the argument is None) + '
                  'package-wide forwarding pass over the AST + call corpus under every default configuration (bounded)')
 prop('C19', ground=['astpass:c19_ownership'], bounded=['robust'],
+     # P: the frame obligations (and only those) of the functions under contract on the parse / build / encode /
+     # validate / datatype paths: none of them writes a module-level variable or an object it was not handed
+     frames_of=['C01', 'C03', 'C04', 'C06', 'C07', 'C08', 'C13', 'C14', 'C15', 'C16'],
      explanation='sufficient frame condition: no function reachable from parse/build/encode/validate writes a process-wide '
                  'object (ownership pass over the AST + digest of the process-wide objects around a call corpus + threads)')
 
